@@ -168,6 +168,13 @@ func (c *Class) Evaluation(
 			parentFrame = "Builtin"
 		} else {
 			parentFrame = base.CalculateFrame(parentFrame, parentNamespace)
+
+			// an unqualified superclass is first looked up in the namespace
+			// the class itself is defined in (module M; class B < A)
+			if parentFrame == "" && ctx.GetFrame() != "" &&
+				base.IsUserClassDefined(ctx.GetFrame(), parentClass) {
+				parentFrame = ctx.GetFrame()
+			}
 		}
 
 		parentNode := base.ClassNode{Frame: parentFrame, Class: parentClass}
